@@ -207,3 +207,32 @@ Lemma demo_reads :
   /\ read_string demo_opts 60 demo_root "p" (-1) = Err ECyclic ""
   /\ read_string demo_opts 60 demo_root "saved" (-1) = Ok "dflt".
 Proof. vm_compute. repeat split; reflexivity. Qed.
+
+(** * literal text and escapes (the lexer/parser of variables.go) *)
+Lemma index_any_dollar_none s : mem_ascii "$"%char s = false -> index_any s "$" = None.
+Proof.
+  induction s as [|a r IH]; cbn [mem_ascii index_any]; intro H; [reflexivity|].
+  apply Bool.orb_false_elim in H. destruct H as [Ha Hr].
+  assert (Ascii.eqb a "$"%char = false) as E by (rewrite Ascii.eqb_sym; exact Ha).
+  rewrite E. cbn [orb]. rewrite (IH Hr). reflexivity.
+Qed.
+
+(* a string without a dollar sign is literal text, whatever else it contains *)
+Theorem text_without_dollar_is_literal sep maxIdx nk esc s :
+  s <> "" -> mem_ascii "$"%char s = false -> parse_splice sep maxIdx nk esc s = inl (EConst s).
+Proof.
+  intros Hne Hd. unfold parse_splice, lexer. cbn [lex_go].
+  destruct s as [|a r]; [contradiction|].
+  change (sdrop 0 (String a r)) with (String a r). cbn [Nat.eqb].
+  rewrite (index_any_dollar_none (String a r) Hd).
+  unfold str_tok. cbn [String.eqb rev app]. reflexivity.
+Qed.
+
+Lemma escape_examples :
+  parse_splice "." 1024 false false "$$" = inl (EConst "$")
+  /\ parse_splice "." 1024 false false "$}" = inl (EConst "}")
+  /\ parse_splice "." 1024 false false "a$$b$}c" = inl (EConst "a$b}c")
+  /\ parse_splice "." 1024 false false "$${x}" = inl (EConst "${x}")
+  /\ parse_splice "." 1024 false false "${x}" = inl (ERef [FName "x"] ".")
+  /\ parse_splice "." 1024 false false "${x:d}" = inl (EDefault (EConst "x") (EConst "d") ".").
+Proof. vm_compute. repeat split; reflexivity. Qed.
